@@ -843,6 +843,42 @@ func ruleNewerMemberAlwaysWins(c *eng.Ctx) {
 		_, ok := x.(*ssa.MapUpdate)
 		return ok
 	}}
+	// ... and what the member's epoch is compared with is the request's: a value that can be the member's own epoch (an
+	// epoch "adopted" from the current member when the request carries none) compares the member with itself
+	selfCmp := false
+	eng.Instrs(fn, func(in ssa.Instruction) {
+		bo, isBo := in.(*ssa.BinOp)
+		if !isBo {
+			return
+		}
+		var other ssa.Value
+		switch {
+		case ge(bo.X) && !ge(bo.Y):
+			other = bo.Y
+		case ge(bo.Y) && !ge(bo.X):
+			other = bo.X
+		default:
+			return
+		}
+		var leaves func(v ssa.Value, seen map[ssa.Value]bool)
+		leaves = func(v ssa.Value, seen map[ssa.Value]bool) {
+			if seen[v] {
+				return
+			}
+			seen[v] = true
+			if ph, isPhi := v.(*ssa.Phi); isPhi {
+				for _, e := range ph.Edges {
+					leaves(e, seen)
+				}
+				return
+			}
+			if fv, _ := eng.FieldRead(v); fv != nil && fv.Name() == "groupEpoch" {
+				selfCmp = true
+			}
+		}
+		leaves(other, map[ssa.Value]bool{})
+	})
+	c.Check(!selfCmp, "the member's epoch is compared with the request's", p.Pos(fn.Pos()), "existing.groupEpoch > (the epoch the request carries)", "partition.Subscribe compares the current member's group epoch with a value that can be that very epoch (adopted from the member when the request carries 0): such a request is never stale, takes the partition from a member of a newer group epoch and inherits its epoch")
 	w := q.Find()
 	c.Check(w == nil, "an existing member is replaced only across the epoch comparison", p.Pos(fn.Pos()), "from 'the group has a member here' the cancel / registration is reachable only over existing.groupEpoch <= groupEpoch", "partition.Subscribe can cancel or replace the group's current member without having compared the group epochs ("+w.String()+"): a request that by-passes the comparison (an epoch of 0) takes the partition from a member of a newer group epoch")
 }
